@@ -40,8 +40,26 @@ def describe(case, obs):
             f"boundary={k['boundary']}, fill_value={k['fill']}) -> impl {str(obs)[:200]}")
 
 
+def systematic():
+    """A fixed block run at every seed: falsy-but-given and not-given spellings of the per-call boundary and
+    fill_value against non-trivial Grid-level defaults (zero is a fill value like any other, an empty mapping
+    names no axis, None is "not given"), one axis, the shifts that need a halo on the left and on the right."""
+    out = []
+    for func in ("diff", "interp"):
+        for frm, to in (("center", "left"), ("center", "right"), ("left", "center")):
+            for cb, cf in (("fill", 3), ({"X": "fill"}, {"X": 7}), ("extend", 5)):
+                for kb, kf in ((None, None), (None, 0), (None, 0.0), (None, {"X": 0}), (None, {}), ("fill", 0),
+                               ({"X": "fill"}, 0.0), ({}, 0), ("fill", None), ("extend", 0)):
+                    ps = [["center", "x_c"], [frm if frm != "center" else to, "x_s"]]
+                    ctor = {"coords": [["X", ps]], "N": {"X": 3}, "periodic": False, "boundary": cb, "fill": cf}
+                    d = "x_c" if frm == "center" else "x_s"
+                    out.append({"ctor": ctor, "dims": [[d, 3]], "vals": [6, 16, 17], "dtype": "float64",
+                                "call": {"func": func, "axes": ["X"], "to": to, "boundary": kb, "fill": kf}})
+    return out
+
+
 def generate(rng, tier):
-    cases = []
+    cases = systematic()
     n = 500 if tier == "quick" else 8000
     shift_cycle = 0
     for _ in range(n):
